@@ -608,7 +608,9 @@ def _parse_transf_v33(raw, system, max_bus):
                          'bus1': data[0][i],
                          'bus2': new_bus,
                          'u': data[0][11],
-                         'b': data[0][8],
+                         # the magnetising admittance MAG1 + j MAG2 belongs to the winding-1 bus, once
+                         'g1': data[0][7] if i == 0 else 0.0,
+                         'b1': data[0][8] if i == 0 else 0.0,
                          'r': r[i],
                          'x': x[i],
                          'Sn': system.config.mva,   # star impedances are in per unit on the system base
